@@ -5,10 +5,10 @@ V = os.path.dirname(os.path.dirname(os.path.abspath(__file__)))
 TV = "translation_validation"
 CHECKS = {
  "C01": (TV, "A", "SMT equivalence of the captured z3 program with an independent reference translation (z3), per program and per session prefix",
-         "Every program of a generated family (all public constructors over all leaf combinations, all parent/child constructor pairs, random incremental sessions) is run through the real Solver/Z3Backend; z3 decides for all variable values that what the back end add()s is equivalent to domains & reference meaning, that find_answer's verdict equals satisfiability of the reference formula and that .sol is a model. Bounded by tree depth 3 / 4 variables; not a proof.",
+         "Every program of a generated family (all public constructors over all leaf combinations, all parent/child constructor pairs with literal and variable siblings, directly built n-ary +/-, random incremental sessions) is run through the real Solver/Z3Backend; the reference is the documented meaning of the program's *description* (independent of the trees the library builds); z3 decides for all variable values that what the back end add()s is equivalent to domains & reference meaning, that find_answer's verdict equals satisfiability of the reference formula and that .sol is a model. Bounded by tree depth 3 / 4 variables; not a proof.",
          "reference translator (vlib/ea/ref.py); z3 5.1.0 (also the back end under test); proxy capture of z3.Solver.add", "2/C01"),
  "C04": (TV, "A", "SMT exists-forall set equality between the emitted constraint program and an auxiliary-free connectivity specification (z3)",
-         "For each graph/grid instance the real active_vertices_connected is executed; z3 decides soundness (F & ~R unsat) and completeness (R & forall aux. ~F unsat) over all 2^n patterns and all auxiliary assignments at once; instances (graphs <= 5-9 vertices, grids <= 4x4) are enumerated.",
+         "For each graph/grid instance the real active_vertices_connected is executed; z3 decides soundness (F & ~R unsat) and completeness (R & forall aux. ~F unsat) over all 2^n patterns and all auxiliary assignments at once; instances (graphs <= 5-9 vertices, grids <= 4x4, Graph objects with a usage history) are enumerated; beyond that bound a 'spot' mode pins is_active to adversarial patterns on grids up to 7x7 while the solver still decides over all auxiliaries.",
          "reference translator; closure-matrix spec library; z3 quantifier engine; native operator layout as documented", "2/C04"),
  "C08": (TV, "A", "SMT set equality (exists-forall) between grid/graph encodings and the graph definition (z3)",
          "Same engine as C04 for not_adjacent (no auxiliaries: plain equivalence) and not_adjacent_and_not_segmenting (grid encoding and explicit-graph encoding both against not-adjacent & complement-connected), all grid shapes h*w<=9/12 incl. 1xN.",
@@ -38,7 +38,7 @@ CHECKS = {
          "__getitem__, cell_neighbors, vertex_neighbors, dual and the edge/point/cell incidence are confirmed over all paths for unbounded h, w, y, x; orderings (all_edges, iteration, _from_grid_frame) are a finite structural table h,w<=4/7; semantic use of the inferred graph is decided in C06/C10.",
          "CrossHair soundness; stub arrays stand for BoolArray2D", "2/C14"),
  "C02": (TV, "A", "per-answer-key SMT exactness queries on the reference formula (z3) after running the real solve() against several oracle routes",
-         "The real Solver.solve() runs on every solution set over 3 booleans / {0,1,2}^2 / bool x int and on random tree programs, against z3, four steered real-z3 oracles (model choice adversarial, contract kept), and the five text back ends served by an exact protocol solver (native deduction mode and refinement through 'sugar'); per key z3 decides forced-value / genuine ambiguity on the reference formula. Oracle orders beyond the steered ones are outside the claim.",
+         "The real Solver.solve() runs on every solution set over 3 booleans / {0,1,2}^2 / bool x int and on random tree programs, (incl. values outside the small-int cache and two-phase sessions solve / add_answer_key / solve) against z3, four steered real-z3 oracles (model choice adversarial, contract kept), and the five text back ends served by an exact protocol solver (native deduction mode and refinement through 'sugar'); per key z3 decides forced-value / genuine ambiguity on the reference formula. Oracle orders beyond the steered ones are outside the claim.",
          "reference translator; z3; vlib/ea/sugartext.py as the external solver", "2/C02"),
  "C03": (TV, "A+B", "SMT equivalence between the captured CSP text (independent Sugar-syntax reader) and the reference translation (z3); CrossHair for reply parsing",
          "The string handed to each of the five back ends' external entry point is captured; z3 decides text <=> posted constraints for all variable values (native graph operators included); declarations and the answer-key line are compared exactly; reply parsing is executed symbolically by CrossHair for both reply formats with symbolic values, listed-subset flags and ids != positions.",
